@@ -32,7 +32,7 @@
 (***************************************************************************)
 EXTENDS WSOrigin, FiniteSets, Json, TLC
 
-CONSTANTS MaxLen, PairLen, ShapeLen, AllPairs
+CONSTANTS MaxLen, PairLen, ShapeLen, AllPairs, PortLen
 
 VARIABLES prog, pc, res
 mvars == << prog, pc, res >>
@@ -99,6 +99,7 @@ HostsMax   == Hosts(MaxLen)
 HostsPair  == Hosts(PairLen)
 StrsPair   == Strs(PairLen)
 HostsShape == {h \in Hosts(ShapeLen) : ~HasColon(h)}
+HostsPort  == {h \in Hosts(PortLen) : ~HasColon(h)}     \* host names of the structured port product
 AuthShapes == {"plain", "userinfo", "path"}
 
 InitProg ==
@@ -118,7 +119,7 @@ InitProg ==
   \/ \E hy \in Lits : \E sh \in {"plain", "userinfo", "path", "evil"} : \E hp \in {<< >>, C81} : \E op \in {<< >>, P81, P82} :
         prog = Pr(hy[1] \o hp, O(sh, Http, hy[2], op))
   \* structured port variants on both sides x origin scheme (default port of the scheme or not)
-  \/ \E h \in HostsShape : \E y \in UVariants(h) : \E sh \in AuthShapes : \E sc \in Schemes : \E hp \in HostPorts : \E op \in OrgPorts :
+  \/ \E h \in HostsPort : \E y \in UVariants(h) : \E sh \in AuthShapes : \E sc \in Schemes : \E hp \in HostPorts : \E op \in OrgPorts :
         prog = Pr(h \o hp, O(sh, sc, y, op))
   \/ \E hy \in Lits \cup {<<Dom, Dom>>} : \E sh \in {"plain", "path"} : \E sc \in Schemes : \E hp \in HostPorts : \E op \in OrgPorts :
         prog = Pr(hy[1] \o hp, O(sh, sc, hy[2], op))
